@@ -239,6 +239,23 @@ def check(run):
                           'abort path completes the handler with something other than operation_aborted: ' + txt[:120], 'bound error is operation_aborted')
     run.floor('R6-ABORT', 30)
 
+    # timer: cancel / re-arm / destroy
+    run.clause('timer: re-arming and destruction abort the outstanding wait on every path (cancel() on all paths); its typestate rules are C03')
+    for name in ('expires_at', 'expires_after', '~high_resolution_timer', 'cancel_one'):
+        for f in fx.fn(TIMER + '::' + name, required=False):
+            run.touch(f)
+            cs = [c for c in f.calls() if (q.callee_name(c) or '') in (TIMER + '::cancel', TIMER + '::expires_at')]
+            run.check(bool(cs) and q.on_all_paths(f, cs), 'R6-ABORT', 'timer-rearm-cancels', TIMER + '::' + name, f.loc(),
+                      '%s has a path that does not go through cancel(): the outstanding wait is neither completed nor aborted, and the next async_wait() silently overwrites its handler' % name,
+                      'cancel() on every path')
+    cn = fx.fn1(TIMER + '::cancel')
+    fires = [c for c in cn.calls() if (q.callee_name(c) or '').endswith('high_resolution_timer::fire')]
+    run.check(bool(fires) and all('operation_aborted' in q.render(cn, c) for c in fires), 'R6-ABORT', 'timer-cancel-aborts', TIMER + '::cancel', cn.loc(), 'cancel() does not fire the pending handler with operation_aborted', 'fires operation_aborted')
+    run.clause('a parked receive is completed through the slot it was parked in: slot stores agree with the flag the wake-up dispatches on (shared with C06)')
+    import p06
+    p06.flag_slot_agreement(run, TCP, rule='R6-DISCARD')
+    p06.flag_slot_agreement(run, UDP, rule='R6-DISCARD')
+
     # resolver: handlers live in m_queue
     run.clause('R6-ABORT(resolver) cancel swaps the whole queue out and posts every entry with operation_aborted; the destructor reaches cancel; on_lookup returns on abort before touching members')
     for rec in fx.record(RES):
